@@ -118,18 +118,54 @@ func findExec(c *Check, rule string) *execAnchors {
 			a.RunCommand = engine.TopFunc(s.Parent())
 		}
 	}
+	// the construction of the exec.Cmd may have been moved into a helper: the runner is the function that
+	// starts the command (Run/Start/Output/CombinedOutput), which is then the helper's only caller
+	startsCommand := func(fn *ssa.Function) bool {
+		return len(callsNamed(fn, "(*os/exec.Cmd).Run", "(*os/exec.Cmd).Start", "(*os/exec.Cmd).Output", "(*os/exec.Cmd).CombinedOutput")) > 0
+	}
+	for lift := 0; lift < 2 && a.RunCommand != nil && !startsCommand(a.RunCommand); lift++ {
+		var up []*ssa.Function
+		for _, cf := range c.G.CallerFuncs(a.RunCommand) {
+			if t := engine.TopFunc(cf); engine.InPackage(t, "execution") && t != a.RunCommand {
+				up = append(up, t)
+			}
+		}
+		if len(up) != 1 {
+			break
+		}
+		a.RunCommand = up[0]
+	}
 	if a.RunCommand == nil {
 		c.Unknown(rule, "anchor/command-runner", "anchor-unresolved: no exec.CommandContext call in internal/execution", "-")
 		return nil
 	}
 	// output checks: caller of RunCommand that ranges over Target.OutputChecks
 	// exec command: caller of RunCommand that calls context.WithTimeout
-	for _, fn := range c.G.CallerFuncs(a.RunCommand) {
+	classify := func(fn *ssa.Function) bool {
 		// the timeout may be applied in a helper that derives the command's context
 		if len(callsNamedDeep1(fn, "context.WithTimeout")) > 0 {
-			a.ExecCommand = fn
+			if a.ExecCommand == nil {
+				a.ExecCommand = fn
+			}
+			return true
 		} else if readsField(c, fn, fk("model.Target", "OutputChecks")) {
-			a.OutputChecks = fn
+			if a.OutputChecks == nil {
+				a.OutputChecks = fn
+			}
+			return true
+		}
+		return false
+	}
+	for _, fn := range c.G.CallerFuncs(a.RunCommand) {
+		if classify(fn) {
+			continue
+		}
+		// a loop body or a wrapper that was extracted: the function that ranges over the checks (or applies the
+		// timeout) is its caller
+		for _, up := range c.G.CallerFuncs(fn) {
+			if t := engine.TopFunc(up); engine.InPackage(t, "execution") && t != fn {
+				classify(t)
+			}
 		}
 	}
 	if a.ExecCommand == nil || a.OutputChecks == nil {
